@@ -18,7 +18,8 @@ RULE = ("cases = DUT variant (standalone=True, address 0 | decoder + real token 
         "transactions (token to us / foreign address / any endpoint; DATA0/1 with 8 valid bytes, corrupted CRC, 0..7 "
         "or 9..12 bytes, PID only, aborted), retries (SETUP, bad DATA0, SETUP, DATA0), foreign transactions after a "
         "failed SETUP, IN/OUT/PING/SOF tokens ours and foreign, bad-CRC5 tokens, handshakes, random PID bytes; dense "
-        "and FS-like byte timing, packet separation down to 1 cycle; 'embedded' items put a well-formed packet INSIDE a "
+        "and FS-like byte timing, packet separation down to 1 cycle (2 cycles after data-PID packets that cannot be a SETUP "
+        "payload, the handshake gap after 11-byte data packets); 'embedded' items put a well-formed packet INSIDE a "
         "longer one (over-long DATA after a SETUP token whose tail is data-PID + 8 bytes + their CRC16 at every offset "
         "around the 10-byte capture limit, with the outer CRC16 valid as well in half of them; valid packet + trailing "
         "bytes; token + data packet in one burst; SETUP token inside a handshake/data burst; doubled PID), at "
@@ -27,8 +28,11 @@ RULE = ("cases = DUT variant (standalone=True, address 0 | decoder + real token 
 ASSUMPTIONS = [
     "LegalRx: rx_valid only while rx_active and not in the cycle in which rx_active rises; packets separated by >= 1 "
     "idle cycle",
-    "after a packet that starts with a data PID the line stays idle for >= (rx-to-tx delay + 3) cycles (the host "
-    "waits for the handshake; the decoder may be in INTERPACKET_DELAY and the timer was just restarted)",
+    "LegalFrom (setup_reported_iff, ack_once_after_gap, history_exact): a packet that starts with a data PID is followed "
+    "by >= 2 idle cycles; a data packet that IS REPORTED (and is going to be ACKed) is followed by >= (rx-to-tx delay "
+    "+ 3) idle cycles (the host waits for the handshake).  The older theorems (earlier_garbage_is_harmless, "
+    "garbage_keeps_boundary) assume the handshake gap after every data-PID packet (gapOk; legal_legalFrom shows it is "
+    "the stronger assumption)",
     "bytes are 8 bit; timer delay <= counter_max + 1",
     "setup_reported_iff reads 'a SETUP token ... is followed by' as the packet-level `armedAfter`: the last non-SOF token "
     "seen is a SETUP for this device and no data packet since made the deserializer strobe (CRC-valid with <= 8 payload "
@@ -39,11 +43,10 @@ ASSUMPTIONS = [
     "the decoder does not look at the endpoint number of the SETUP token (the control endpoint filters it): theorems "
     "and monitor count SETUP tokens to any endpoint of this device's address",
 ]
-PARTIAL = ("setup_reported_iff (every legal history, packet level, with the exact characterisation `dsStrobes` of when the "
-           "deserializer strobes, stale-register runts included) and ack_once_after_gap (cycle numbers) are theorems.  "
-           "Not covered by a theorem, only by the co-simulation ('hostile' cases): histories in which a packet that starts "
-           "with a data PID is followed by fewer than delay+3 idle cycles (FS: 13 cycles = 2.6 bit times; on a real bus "
-           "only after data packets nobody handshakes, e.g. isochronous traffic to other devices).")
+PARTIAL = ""   # setup_reported_iff (every legal history, packet level, exact characterisation `dsStrobes` of the deserializer
+               # strobe incl. stale-register runts) and ack_once_after_gap (cycle numbers) are theorems.  Excluded by the
+               # environment assumptions only: a data-PID packet followed by a single idle cycle (below the bus's
+               # inter-packet delay: >= 2 FS bit times = 10 cycles, >= 11 cycles at HS); 'hostile' cases co-simulate it.
 
 OUR_TOKENS = [U.PID_OUT, U.PID_IN, U.PID_SETUP, U.PID_PING]
 HS_DELAY, FS_DELAY, COUNTER_MAX = 1, 10, 640
@@ -264,7 +267,11 @@ def render(rng, pkts, delay, hostile):
         is_data = bool(p) and U.pid_ok(p[0]) and (p[0] & 3) == 3
         gap = rng.choice([1, 1, 1, 2, 3, 6, 14])
         if is_data and not hostile:
+            # the handshake gap after anything that could be reported (PID + 8 + CRC16); other data-PID packets
+            # (runts, short, over-long, embedded shapes) may be followed by as little as 2 idle cycles
             gap = delay + 3 + rng.choice([0, 0, 0, 1, 4, 20])
+            if len(p) != 11 and rng.chance(50):
+                gap = rng.choice([2, 2, 3, 5, 9])
         rows += [[0, 0, rng.below(256)] for _ in range(gap)]
     rows += [[0, 0, 0]] * (delay + 6)
     if hostile:
